@@ -416,11 +416,17 @@ func lemmaViewMergeAssociative(a, b, c *ClusterView) (left, right *ClusterView) 
 //@   requires r != nil && messages.rwf(r)
 //@   modifies r.pos, r.err
 //@   ensures messages.rwf(r) && (result.1 == nil ==> result.0 != nil)
+// reading a version vector: never panics; the entry count is capped (65535) before anything is allocated; every
+// decoded counter is within the representable range the lattice operations assume
 //@ func ReadVersionVector
-//@   trusted
+//@   allocbound 65535
 //@   requires r != nil && messages.rwf(r)
 //@   modifies r.pos, r.err
 //@   ensures messages.rwf(r)
+//@   ensures result.1 == nil ==> result.0.m != nil && forall k string :: k in result.0.m ==> result.0.m[k] <= 9223372036854775807
+//@ loop ReadVersionVector#1
+//@   modifies r.pos, r.err, out.m[*]
+//@   invariant messages.rwf(r) && out.m != nil && forall k string :: k in out.m ==> out.m[k] <= 9223372036854775807
 //@ func readClusterView
 //@   allocbound len(r.buf)
 //@   callspec ReadInto ensures messages.rwf(r) && r.buf == old(r.buf)
